@@ -75,11 +75,10 @@ class C16(verif.Spec):
     harness = "export_harness"
     harness_link_lib = True
     timeout_per_case = 5.0
-    partial_note = ("export write layer, vbi_print_page_region (table mode) and the byte index sets of the two region renderers "
-                    "are modelled and proved; html/png/xpm/ppm/text encoders are not modelled (target agreement and bounds are "
-                    "judged by the oracle on the real code); region_equals_full is proved as a run-list translation lemma, the "
-                    "last-write-wins pixel equality is checked by the oracle only; render_in_rectangle holds at full strength for "
-                    "the current tree (F14 repaired); 'a too small buffer makes vbi_print_page_region fail' is false until F27a is repaired")
+    partial_note = ("export write layer, vbi_print_page_region (table mode), the text export module and the byte runs of the two region "
+                    "renderers are modelled and proved (incl. region_equals_full with symbolic pixel values); html/png/xpm/ppm encoders, "
+                    "fonts and palettes are not modelled: target agreement and bounds for them are judged by the oracle on the real code; "
+                    "the ANSI control sequences of the text module are the model's transcription, tied to the code by correspondence")
     assumptions = ["iconv is a stateless function of the UCS-2 code that writes at most the space it is given (no BOM, no //TRANSLIT)",
                    "rowstride is -1 or a multiple of the pixel size with rowstride >= width * cell width * pixel size; canvas has the documented size",
                    "the region lies inside the page (documented precondition of the draw functions; the print function checks it itself)",
@@ -91,8 +90,7 @@ class C16(verif.Spec):
                     "fault injection in the harness (realloc limit inside _vbi_grow_vector_capacity, fopencookie / RLIMIT_FSIZE sinks) is used "
                     "for correspondence only: the property does not quantify over allocation / write failure, so such cases are never judged "
                     "by the oracle, and cases where the model predicts an abort (F26) are not run"]
-    open_statements = ["Zvbi.Export.Spec.region_equals_full_stmt",
-                       "Zvbi.Export.Spec.print_region_exact_small_buffer_stmt currentCfg (false until F27a is repaired; proved for the repaired code)"]
+    open_statements = []
     rule = ("cases from corpus + seeded generators (synthetic exporters with fault injection; random pages with enlarged, concealed, "
             "DRCS cells; print / draw / export ops); non-trivial = the implementation produced at least one non-reject output")
 
@@ -124,7 +122,7 @@ class C16(verif.Spec):
                 ops.append("direct %d %s" % (len(b) + rng.choice([0, 0, 1, 7, 256, 1000]), hx(b)))
             if ops[-1].split()[0] not in ("flush",) and ops[-1] != "puts null": first = False
         L = sum(len(op_bytes(o)) for o in ops)
-        tgt = rng.choice(["mem", "mem", "alloc", "fp", "file"])
+        tgt = rng.choice(["mem", "mem", "alloc", "fp", "file"]) if rng.random() > 0.03 else "filebad"
         if tgt == "alloc" and L == 0:
             ops.insert(0, "putc 33"); L += 1
         size = "0"
@@ -207,6 +205,9 @@ class C16(verif.Spec):
             if rng.random() < 0.04: stride = max(0, w * cw * ct - ct)          # rejected on both sides
             if cc: ops.append("draw cc %s %d %d %d %d %d" % (fmt, stride, col, row, w, h))
             else: ops.append("draw vt %s %d %d %d %d %d %d %d" % (fmt, stride, col, row, w, h, rng.randrange(2), rng.randrange(2)))
+        for _ in range(rng.randrange(0, 3)):
+            ops.append("textexp %s %d %d" % (rng.choice(list(FORMATS)), rng.choice([35, 32, 46, 64, 10, 31, 0x2588, 0xE000, 0xE001, 99999, rng.randrange(10, 70000)]),
+                                             rng.choice([0, 0, 1, 2])))
         if wellformed and rng.random() < (0.4 if tier == "quick" else 0.7):
             ops.append("export " + rng.choice(MODULES))
         return ops
@@ -277,6 +278,8 @@ class C16(verif.Spec):
     def oracle_write(self, begin, ops, line):
         t = begin.split()
         tgt, size, heap, sink = t[1], t[2], int(t[3]), int(t[4])
+        if tgt == "filebad":
+            return None if "ret=0 sink=unlinked trace=-" in line else "vbi_export_file with a file that cannot be created: " + line
         if heap < BIG or sink < BIG:
             return None        # injected failure: outside the property's quantifier, correspondence only
         out = b"".join(op_bytes(o) for o in ops)
@@ -338,6 +341,9 @@ class C16(verif.Spec):
                             return "print: output differs from the page text (%s)" % self.print_diff(pg, t[1], col, row, w, h, data, exp)
                     elif ret != 0:
                         return "print: buffer too small but nonzero result (character replaced by space)"
+            elif t[0] == "textexp" and line.startswith("ok") and pg is not None:
+                w = self.oracle_text(pg, t, line)
+                if w: return w
             elif t[0] == "draw" and line.startswith("ok n="):
                 f = dict(kv.split("=") for kv in line.split()[1:])
                 cc = t[1] == "cc"; cw, ch = (16, 26) if cc else (12, 10)
@@ -353,6 +359,29 @@ class C16(verif.Spec):
                 if f.get("cf") == "0": return "concealed / flashing characters are not drawn as spaces"
                 if int(f["bytes"]) == 0 and not all(pg.get(r, c)[1] in OVER for r in range(row, row + h) for c in range(col, col + w)):
                     return "supported format drew nothing"
+        return None
+
+    def oracle_text(self, pg, t, line):
+        """the text module: the page's characters row by row, graphics -> gfx_chr, others not printable -> space"""
+        codec = FORMATS[t[1]]; g = int(t[2]); ctl = int(t[3])
+        gfx = 0x20 if g < 0x20 or g > 0xE000 else g
+        if line == "ok fail": return "text export failed"
+        data = unhx(line.split()[2])
+        if ctl > 0:
+            if codec == "utf-16-le": return None          # escape bytes cannot be told from character bytes
+            if not data.endswith(b"\x1b[m\n"): return "text export: terminal reset missing at the end"
+            data = re.sub(rb"\x1b\[[0-9;]*m|\x1b#[0-9]", b"", data[:-4]) + b"\n"
+        exp = b""; prev = 0xFF
+        for r in range(pg.rows):
+            for c in range(pg.cols):
+                u, s, _ = pg.get(r, c)
+                skip = ctl > 0 and s in OVER and prev != s
+                prev = s
+                if skip: continue
+                u2 = u if u < 0xE600 else (gfx if 0xEE00 <= u <= 0xEFFF else 0x20)
+                exp += encode_char(u2, codec)
+            exp += b"\n"
+        if data != exp: return "text export (control=%d): output differs from the page text" % ctl
         return None
 
     def print_diff(self, pg, fmt, col, row, w, h, data, exp):
